@@ -29,23 +29,23 @@ LEVEL_TEXT = ("Theorems for every repository state, reference, package content, 
               "placement of faults on the git calls (fail or raise, before or after taking effect): load_git restores the repository "
               "EXACTLY WHEN the placement is benign (iff), no temp dir / checkout is left and HEAD/index/status/tags are untouched for "
               "every placement whatsoever, check() and arbitrary histories of operations restore likewise, exit code 0 only after a "
-              "comparison without breaking change; _normalize yields no path separator; Breakage._location strips the worktree prefix; "
+              "comparison without breaking change; the checkout name is a non-empty single path component; Breakage._location strips the worktree prefix; "
               "returned objects read their lines from the collection only. Model tied to the code by fault-injected differential runs on "
               "generated repositories and to git by an oracle correspondence on random git step sequences.")
 LEVEL_NOTE = ("Modelled, not verified: git itself (worktree add/remove/prune, branch -D: tied to real git 2.39 by (O)), the file system, "
               "TemporaryDirectory, the loader (abstracted to a sequence of stages that may write into the checkout or raise); wt_add is "
               "modelled for an unoccupied path only (real git creates the branch before failing on an occupied one). Excluded by "
-              "hypothesis (no implementation can restore): a cleanup call itself fails or is interrupted. Known findings carried as "
-              "hypotheses: F2 (`worktree add` takes effect then reports failure), F3 (user's own prunable worktree registration is pruned), "
-              "F4 (location for a reference normalising to the empty string). Non-ASCII references are outside the normalize model "
-              "(checked directly against the spec only). All 18 theorems are closed under the global context.")
+              "hypothesis (no implementation can restore): a cleanup call itself fails or is interrupted. Known finding carried as a "
+              "hypothesis: F2 (`worktree add` takes effect then reports failure). Repaired and now regression cases: --force, F3 (global "
+              "`worktree prune`), F4 (reference normalising to the empty string). Non-ASCII references are outside the normalize model "
+              "(checked directly against the spec only). All 16 theorems are closed under the global context.")
 MODEL = ("Model.C20_git", "run_C20")
 COQ_TARGETS = ["Proofs/C20_git.vo"]
 RULE = ("seeded repositories (5-8 commits; package present / absent / top-level syntax error / broken submodule; lightweight and annotated "
         "tags; branches with slashes; HEAD on main, on a slash branch or detached; dirty main worktree with untracked, modified, staged "
         "files and a stash; foreign worktrees healthy / locked-stale); per repository: every reference of a pool (tags, slash branches, "
         "HEAD, @, HEAD~1, full and abbreviated sha, unknown, ambiguous, existing griffe-<ref> branch) without fault; every single-fault "
-        "placement (5 git calls x fail/raise x before/after, mkdtemp) with clean and dirty body; every loader stage / hook index x "
+        "placement (4 git calls x fail/raise x before/after, mkdtemp) with clean and dirty body; every loader stage / hook index x "
         "{Exception, KeyboardInterrupt, write a file}; random multi-fault schedules; check() with faults on both loads, latest-tag "
         "default and working-tree side; `python -m griffe check` end to end; random git step sequences for the oracle. "
         "non-trivial = a fault, an event, a non-package content or a non-plain reference; distinct by canonical case value")
@@ -279,7 +279,7 @@ class Repo:
             # the user happens to own a branch called griffe-<normref of some tag>
             tname = next(t for t in sorted(self.tags) if t != self.ambiguous)
             self.existing_for = tname
-            bname = "griffe-" + py_normalize(tname)
+            bname = "griffe-" + py_checkout_name(tname)
             git(self.path, "branch", bname, self.commits[0]["sha"])
             self.base_branches[bname] = 0
         else:
@@ -339,7 +339,7 @@ class Repo:
     # -- references
     def loadable(self, ref):
         """Commit index `git worktree add -b griffe-<normref> <dir> ref` checks out, or None when it must refuse."""
-        if ref is None or ref == self.ambiguous or ("griffe-" + py_normalize(ref)) in self.base_branches:
+        if ref is None or ref == self.ambiguous or ("griffe-" + py_checkout_name(ref)) in self.base_branches:
             return None
         names = self.names()
         if ref in names:
@@ -524,6 +524,11 @@ def py_normalize(ref: str) -> str:
     return "".join(out)
 
 
+def py_checkout_name(ref: str) -> str:
+    """Mirror of the model's checkout_name: `_normalize(ref) or "ref"`."""
+    return py_normalize(ref) or "ref"
+
+
 def py_resolve(state, ref):
     names, branches = dict(map(tuple, state[4])), dict(map(tuple, state[3]))
     if (ref in names) == (ref in branches):
@@ -531,33 +536,25 @@ def py_resolve(state, ref):
     return names.get(ref, branches.get(ref))
 
 
-def py_no_prunable(state):
-    dirs = {d[0] for d in state[6]}
-    return all(r[2] or r[0] in dirs for r in state[5])
-
-
 def py_classify(state, ref, F, isrepo):
     """Mirror of Model.classify."""
-    f_assert, f_mk, f_add, f_rm, f_pr, f_bd = F
+    f_assert, f_mk, f_add, f_rm, f_bd = F
     reaches_add = f_assert == ["ok"] and isrepo and not f_mk
-    add_possible = py_resolve(state, ref) is not None and ("griffe-" + py_normalize(ref)) not in dict(map(tuple, state[3]))
+    add_possible = py_resolve(state, ref) is not None and ("griffe-" + py_checkout_name(ref)) not in dict(map(tuple, state[3]))
     if reaches_add and add_possible and f_add[0] in ("fail-after", "raise-after"):
         return "gap-add-after"
     reaches_cleanup = reaches_add and add_possible and f_add == ["ok"]
-    benign = f_rm[0] in ("ok", "fail-after") and f_pr[0] in ("ok", "fail-before", "fail-after") and f_bd[0] in ("ok", "fail-after", "raise-after")
+    benign = f_rm[0] in ("ok", "fail-after") and f_bd[0] in ("ok", "fail-after", "raise-after")
     if reaches_cleanup and not benign:
         return "excluded-cleanup-fault"
-    prune_runs = f_rm[0] not in ("raise-before", "raise-after") and f_pr[0] in ("ok", "fail-after", "raise-after")
-    if reaches_cleanup and prune_runs and not py_no_prunable(state):
-        return "gap-prune-foreign"
     return "benign"
 
 
 # --------------------------------------------------------------------------------------------- fault injection
 
 OK = ["ok"]
-NO_FAULTS = [OK, False, OK, OK, OK, OK]
-STEP_INDEX = {"assert": 0, "add": 2, "remove": 3, "prune": 4, "branchD": 5}
+NO_FAULTS = [OK, False, OK, OK, OK]
+STEP_INDEX = {"assert": 0, "add": 2, "remove": 3, "branchD": 4}
 
 
 def classify_git_args(args):
@@ -574,8 +571,6 @@ def classify_git_args(args):
         return "add"
     if a[:2] == ["worktree", "remove"]:
         return "remove"
-    if a[:2] == ["worktree", "prune"]:
-        return "prune"
     if a[:2] == ["branch", "-D"]:
         return "branchD"
     if a[:2] == ["tag", "-l"]:
@@ -881,17 +876,6 @@ def diff_obs(a, b):
     return {k: {"before": a[k], "after": b[k]} for k in a if a[k] != b[k]}
 
 
-def only_stale_pruned(changed):
-    """The difference is exactly: registrations that were prunable before are gone (what finding F3 describes)."""
-    if list(changed) != ["worktrees"]:
-        return False
-    before = {w["path"]: w for w in parse_worktrees(changed["worktrees"]["before"])}
-    after = {w["path"]: w for w in parse_worktrees(changed["worktrees"]["after"])}
-    gone = set(before) - set(after)
-    return bool(gone) and not (set(after) - set(before)) and all(before[g]["prunable"] and not before[g]["locked"] for g in gone) \
-        and all(before[k] == after[k] for k in after)
-
-
 def judge_load(ctx, repo, rec, mout, label):
     """Correspondence (model vs implementation) and direct evaluation of the property for one load_git run."""
     case = rec["case"]
@@ -915,6 +899,11 @@ def judge_load(ctx, repo, rec, mout, label):
     if late:
         ctx.tie_failure("correspondence", "loader stage outside the temporary worktree",
                         {"what": "the model runs every loader stage inside `with tmp_worktree`; these ran after the cleanup", "stages": late[:5]}, cj)
+    if ctrl.locations.get(1):
+        relloc = os.path.relpath(ctrl.locations[1], repo.env.tmp).split(os.sep)
+        if len(relloc) != 2 or not relloc[0].startswith("griffe-worktree-") or relloc[1] != py_checkout_name(case["ref"]):
+            ctx.tie_failure("correspondence", "checkout location vs checkout_parts / checkout_name (model)",
+                            {"impl": relloc, "expected": ["griffe-worktree-*", py_checkout_name(case["ref"])]}, cj)
     if case.get("inspect") and rec["outcome"][0] == "returned" and not ctrl.dirty_at_remove.get(1):
         ctx.tie_failure("harness", "inspection scenario", "forced inspection left no __pycache__ in the checkout: scenario not exercised", cj)
     wrote_planned = any(a[0] == "write" for i, a in case["events"].items() if int(i) < rec["n_points"]) and rec["outcome"][0] == "returned"
@@ -925,7 +914,7 @@ def judge_load(ctx, repo, rec, mout, label):
     pycls = py_classify(rec["before_abs"], case["ref"], case["faults"], True)
     cls = pycls
     if mout is not None:
-        mstate, mres, mcls, mwf, mfresh, mnp = mout
+        mstate, mres, mcls, mwf, mfresh = mout
         cls = mcls
         ctx.observe("load.class", mcls)
         if mcls != pycls:
@@ -947,8 +936,6 @@ def judge_load(ctx, repo, rec, mout, label):
             ctx.property_failure(cj, {"what": "repository not restored", "diff": changed, "outcome": rec["outcome"]})
         elif cls == "gap-add-after":
             ctx.property_failure(cj, {"what": "repository not restored", "diff": changed}, finding="C20-F2")
-        elif cls == "gap-prune-foreign":
-            ctx.property_failure(cj, {"what": "repository not restored", "diff": changed}, finding="C20-F3" if only_stale_pruned(changed) else None)
         else:
             ctx.count("excluded_cleanup_fault_residue")
     if rec["obj_problems"]:
@@ -1002,11 +989,11 @@ def single_fault_cases(ref, n_points, rng, full):
     for step, i in STEP_INDEX.items():
         for fk in fault_kinds(i, full):
             for dirty in (False, True):
-                F = [OK, False, OK, OK, OK, OK]
+                F = [OK, False, OK, OK, OK]
                 F[i] = fk
                 ev = {rng.randrange(n_points): ["write"]} if dirty and n_points else {}
                 out.append(load_case(ref, faults=F, events=ev, n_points=n_points))
-    out.append(load_case(ref, faults=[OK, True, OK, OK, OK, OK], n_points=n_points))
+    out.append(load_case(ref, faults=[OK, True, OK, OK, OK], n_points=n_points))
     return out
 
 
@@ -1029,7 +1016,7 @@ def random_fault(rng, p=0.25):
 def random_load_case(rng, repo, n_points_by_commit):
     ref, k = rng.choice(repo.ref_pool())
     package = PKG if rng.random() < 0.9 else ABSENT_PKG
-    F = [random_fault(rng, 0.1), rng.random() < 0.05, random_fault(rng, 0.2), random_fault(rng), random_fault(rng), random_fault(rng)]
+    F = [random_fault(rng, 0.1), rng.random() < 0.05, random_fault(rng, 0.2), random_fault(rng), random_fault(rng)]
     n = n_points_by_commit.get(k, 0) if package == PKG else 0
     ev = {}
     for _ in range(rng.choice([0, 0, 1, 1, 2, 3])):
@@ -1124,9 +1111,6 @@ def judge_check(ctx, repo, rec, mout):
             ctx.property_failure(cj, {"what": "repository not restored by check", "diff": changed, "outcome": rec["outcome"]})
         elif "gap-add-after" in (cls1, cls2) and "excluded-cleanup-fault" not in (cls1, cls2):
             ctx.property_failure(cj, {"what": "repository not restored by check", "diff": changed}, finding="C20-F2")
-        elif "gap-prune-foreign" in (cls1, cls2) and "excluded-cleanup-fault" not in (cls1, cls2):
-            ctx.property_failure(cj, {"what": "repository not restored by check", "diff": changed},
-                                 finding="C20-F3" if only_stale_pruned(changed) or "gap-add-after" in (cls1, cls2) else None)
     # exit code against the construction oracle, when nothing was injected
     if not faulted and against:
         ko = repo.loadable(against)
@@ -1143,9 +1127,7 @@ def judge_check(ctx, repo, rec, mout):
                     loc = line.split(":")[0]
                     ctx.count("check_locations_seen")
                     if loc not in exp:
-                        empty = any(r and py_normalize(r) == "" for r in (against, c["base"]))
-                        ctx.property_failure(cj, {"what": "breakage location", "griffe": loc, "expected": exp},
-                                             finding="C20-F4" if empty else None)
+                        ctx.property_failure(cj, {"what": "breakage location", "griffe": loc, "expected": exp})
     ctx.count("check_cases")
 
 
@@ -1156,8 +1138,8 @@ def random_check_case(rng, repo, n_points_by_commit, faulty):
     against, ka = pick() if rng.random() < 0.75 else (None, repo.loadable(repo.latest_tag))
     base, kb = pick() if rng.random() < 0.75 else (None, repo.head_idx)
     fz = lambda p: random_fault(rng, p) if faulty else OK  # noqa: E731
-    F1 = [fz(0.05), faulty and rng.random() < 0.03, fz(0.12), fz(0.15), fz(0.15), fz(0.15)]
-    F2 = [fz(0.05), faulty and rng.random() < 0.03, fz(0.12), fz(0.15), fz(0.15), fz(0.15)]
+    F1 = [fz(0.05), faulty and rng.random() < 0.03, fz(0.12), fz(0.15), fz(0.15)]
+    F2 = [fz(0.05), faulty and rng.random() < 0.03, fz(0.12), fz(0.15), fz(0.15)]
     n1, n2 = n_points_by_commit.get(ka, 0), n_points_by_commit.get(kb, 0)
     ev1, ev2 = {}, {}
     if faulty:
@@ -1217,7 +1199,7 @@ def run_cli(ctx, env, repo, against, base):
         if p.returncode != want:
             ctx.property_failure(cj, {"what": "exit code of python -m griffe check", "got": p.returncode, "expected": want, "stderr": p.stderr[-400:]})
         locs = [l.split(":")[0] for l in p.stderr.splitlines() if ": " in l and l.split(":")[0].endswith(".py")]
-        if want and (not locs or any(l not in expected_locations(repo) for l in locs)) and not any(r and py_normalize(r) == "" for r in (against, base)):
+        if want and (not locs or any(l not in expected_locations(repo) for l in locs)):
             ctx.property_failure(cj, {"what": "breakage location not repository-relative", "stderr": p.stderr[-400:]})
     ctx.count("cli_cases")
 
@@ -1363,6 +1345,9 @@ def check_normalize(ctx, n):
     refs = ["HEAD", "@", "@~1", "feat/x", "release/1.x", "v1.0", "a//b", "-a-", "--", "", "a b", "refs/heads/main", "fix/a-b/c", "@{-1}", "..", "a\\b"]
     refs += ["".join(rng.choice(REF_ALPHABET) for _ in range(rng.randint(0, 12))) for _ in range(n)]
     outs = ctx.model([["normalize", r] for r in refs])
+    for r, m in zip(refs, ctx.model([["checkout-name", r] for r in refs])):
+        if m != py_checkout_name(r) or not m or "/" in m:
+            ctx.tie_failure("harness", "py_checkout_name mirror", {"model": m, "python": py_checkout_name(r)}, {"ref": r})
     for r, m in zip(refs, outs):
         impl = _normalize(r)
         ctx.case({"kind": "normalize", "ref": r}, bool(r) and impl != r)
@@ -1394,11 +1379,11 @@ def check_location(ctx, n):
     cases = []
     for i in range(n):
         root = ["/"] + [rng.choice(["tmp", "var", "build", "t"]) for _ in range(rng.randint(0, 3))]
-        normref = rng.choice(["v1", "feat-x", "HEAD", "", "1", "griffe-worktree-y"])
+        normref = rng.choice(["v1", "feat-x", "HEAD", "ref", "1", "griffe-worktree-y"])   # checkout_name is never empty
         rel = [rng.choice(comps) for _ in range(rng.randint(0, 4))]
         kind = rng.random()
         if kind < 0.6:
-            parts = root + ["griffe-worktree-repo-" + normref + "-abc"] + ([normref] if normref else []) + rel
+            parts = root + ["griffe-worktree-repo-" + normref + "-abc", normref] + rel
             is_abs = True
         elif kind < 0.8:
             parts = rel or ["x.py"]
@@ -1417,8 +1402,7 @@ def check_location(ctx, n):
             ctx.tie_failure("correspondence", "location(model) vs Breakage._location", {"model": m, "impl": impl}, {"parts": parts})
         if in_wt and not any(c.startswith("griffe-worktree-") for c in root):
             if impl != rel:
-                ctx.property_failure({"kind": "location", "parts": parts}, {"what": "worktree prefix not stripped", "griffe": impl, "expected": rel},
-                                     finding="C20-F4" if normref == "" else None)
+                ctx.property_failure({"kind": "location", "parts": parts}, {"what": "worktree prefix not stripped", "griffe": impl, "expected": rel})
         ctx.count("location_cases")
 
 
@@ -1673,7 +1657,7 @@ def witness_f4(env, repo):
             for old, new in ((at, other), (other, at)):
                 locs = {str(b._location) for b in find_breaking_changes(old, new) if str(b.obj.filepath).startswith(str(at.filepath.parent))}
                 if locs:
-                    return locs == {f"{PKG}/__init__.py"}
+                    return not locs <= set(expected_locations(repo))
         return None
     finally:
         os.chdir(env.cwd)
@@ -1743,14 +1727,14 @@ def explore(ctx):
             for r2, k2 in pool:
                 if k2 is not None and repo.commits[k2]["kind"] != "package":
                     run_load_batch(ctx, env, repo, [load_case(r2, events={0: ["write"], 1: ["raise", "Injected"]}),
-                                                    load_case(r2, faults=[OK, False, OK, ["fail-before"], OK, OK])], "bad-content")
+                                                    load_case(r2, faults=[OK, False, OK, ["fail-before"], OK])], "bad-content")
                     break
             # 4. random multi-fault schedules
             run_load_batch(ctx, env, repo, [random_load_case(ctx.rng, repo, npts) for _ in range(ctx.budget(30, 200))], "random")
             # 5. check()
             cc = [random_check_case(ctx.rng, repo, npts, faulty=False) for _ in range(ctx.budget(8, 30))]
             cc += [random_check_case(ctx.rng, repo, npts, faulty=True) for _ in range(ctx.budget(14, 80))]
-            if any(py_normalize(x) == "" for x, _ in pool):
+            if any(py_normalize(x) == "" for x, _ in pool):       # `@`: the regression case of the repaired finding F4
                 g = ctx.rng.choice(good)[0]
                 cc.append({"against": g, "base": "@", "F1": NO_FAULTS, "F2": NO_FAULTS, "f_tag": OK, "f_root": OK, "events1": {}, "events2": {}, "n1": 0, "n2": 0})
             run_check_batch(ctx, env, repo, cc)
@@ -1758,7 +1742,7 @@ def explore(ctx):
             pairs = [(a, b) for a, ka in good for b, kb in good if repo.commits[ka]["kind"] == "package" and repo.commits[kb]["kind"] == "package"]
             for want in (True, False):
                 sel = [(a, b) for a, b in pairs if breaking_commits(repo.commits[repo.loadable(a)], repo.commits[repo.loadable(b)]) == want
-                       and py_normalize(a) and py_normalize(b)]
+]
                 if sel:
                     run_cli(ctx, env, repo, *ctx.rng.choice(sel))
             for _ in range(ctx.budget(2, 10)):
@@ -1767,14 +1751,14 @@ def explore(ctx):
                 run_cli(ctx, env, repo, a if ctx.rng.random() < 0.85 else None, b if ctx.rng.random() < 0.7 else None)
             # 7. (O)
             oracle_sequences(ctx, env, repo, ctx.budget(12, 60), ctx.budget(9, 14))
-        # the user's own stale, unlocked worktree registration (finding F3) in the stream
+        # the user's own stale, unlocked worktree registration must survive (regression stream of the repaired finding F3)
         stale = Repo(ctx.seed, 9, env, {"foreign": ["healthy", "stale"], "head": "main"})
         spool = [(r, k) for r, k in stale.ref_pool() if k is not None and stale.commits[k]["kind"] == "package"]
         r = spool[0][0]
         scases = [load_case(r), load_case(spool[-1][0], events={3: ["write"]}),
-                  load_case(r, faults=[OK, False, OK, OK, ["fail-before"], OK]), load_case(r, faults=[OK, False, OK, OK, ["raise-before", "Injected"], OK]),
-                  load_case(r, faults=[OK, False, OK, ["fail-before"], OK, OK]), load_case(r, faults=[OK, False, ["fail-before"], OK, OK, OK]),
-                  load_case("nope"), load_case(r, faults=[OK, False, ["fail-after"], OK, OK, OK])]
+                  load_case(r, faults=[OK, False, OK, ["fail-after"], OK]), load_case(r, faults=[OK, False, OK, OK, ["raise-after", "Injected"]]),
+                  load_case(r, faults=[OK, False, OK, ["fail-before"], OK]), load_case(r, faults=[OK, False, ["fail-before"], OK, OK]),
+                  load_case("nope"), load_case(r, faults=[OK, False, ["fail-after"], OK, OK])]
         run_load_batch(ctx, env, stale, scases + [random_load_case(ctx.rng, stale, {}) for _ in range(ctx.budget(4, 40))], "stale-foreign")
         run_check_batch(ctx, env, stale, [random_check_case(ctx.rng, stale, {}, faulty=False) for _ in range(ctx.budget(2, 10))])
         # a directory that is not a repository at all
@@ -1806,17 +1790,23 @@ def explore(ctx):
         check_location(ctx, ctx.budget(300, 3000))
         # witnesses of the known findings
         ctx.witness("C20-F2", witness_f2(env, rep0))
-        ctx.witness("C20-F3", witness_f3(env, rep0))
-        w4 = None
+        # the witnesses of the repaired findings F3 and F4 are regression cases now: they must not reproduce
+        ctx.case({"kind": "regression", "finding": "F3"}, True)
+        if witness_f3(env, rep0):
+            ctx.property_failure({"kind": "regression", "finding": "F3", "repo": rep0.spec()},
+                                 {"what": "the user's own stale, unlocked worktree registration disappeared during load_git (git worktree prune is back?)"})
         for repo in repos:
             w4 = witness_f4(env, repo)
             if w4 is not None:
+                ctx.case({"kind": "regression", "finding": "F4"}, True)
+                if w4:
+                    ctx.property_failure({"kind": "regression", "finding": "F4", "repo": repo.spec()},
+                                         {"what": "with the reference `@` the breakage location lost its first path component"})
                 break
-        ctx.witness("C20-F4", bool(w4))
         if not quick:
-            sample = [["normalize", "feat/x"], ["normalize", "@"], ["location", True, ["/", "tmp", "griffe-worktree-r-v1-x", "v1", "src", "a.py"]],
+            sample = [["normalize", "feat/x"], ["normalize", "@"], ["checkout-name", "@"], ["checkout-name", "a/b"], ["location", True, ["/", "tmp", "griffe-worktree-r-v1-x", "v1", "src", "a.py"]],
                       ["load_git", True, True, [["main"], 1, 0, [["main", 1]], [["v1", 0]], [], [], []],
-                       [OK, False, OK, ["fail-after"], ["fail-before"], ["raise-after", "KeyboardInterrupt"]], 7, "v1", [[0, "package"], [1, "package"]],
+                       [OK, False, OK, ["fail-after"], ["raise-after", "KeyboardInterrupt"]], 7, "v1", [[0, "package"], [1, "package"]],
                        [["write"], ["raise", "Injected"]]],
                       ["steps", [["main"], 1, 0, [["main", 1]], [["v1", 0]], [], [], []],
                        [["mkdtemp", 1], ["add", "griffe-a", 1, "v1"], ["touch", 1], ["remove", False, 1], ["branch-D", "griffe-a"], ["remove", True, 1], ["prune"], ["branch-D", "griffe-a"], ["rmtree", 1]]]]
